@@ -49,7 +49,6 @@ GLOBAL_REWRITES = [
     ('T4', 'u16::from_be_bytes -> shim', re.compile(r'\bu16::from_be_bytes\('), 'u16_from_be_bytes('),
     ('T4', 'u32::from_be_bytes -> shim', re.compile(r'\bu32::from_be_bytes\('), 'u32_from_be_bytes('),
     ('T4', 'u128::from_be_bytes -> shim', re.compile(r'\bu128::from_be_bytes\('), 'u128_from_be_bytes('),
-    ('T4', '.to_be_bytes() -> shim', re.compile(r'\b([A-Za-z_][\w\.]*(?:\(\))?)\.to_be_bytes\(\)'), r'to_be_bytes_shim(\1)'),
     ('T4', 'std::cmp::min -> shim', re.compile(r'\bstd::cmp::min\('), 'usize_min('),
     ('T4', 'SystemTime::now -> shim', re.compile(r'\bSystemTime::now\(\)'), 'system_time_now()'),
     ('T8', 'bool |= -> ||', re.compile(r'(\bself\.[\w\.]+)\s*\|=\s*([^;]+);'), r'\1 = \1 || \2;'),
@@ -389,7 +388,20 @@ def template_sig_before(out_text, fn_name):
 
 def expand(unit):
     log_items = []
-    t = load_template(unit.tpl)
+    gen = unit.tpl + '.py'
+    if os.path.exists(gen):
+        env = dict(os.environ, VERIF_REPO=REPO)
+        p = subprocess.run([sys.executable, gen], stdout=subprocess.PIPE, stderr=subprocess.PIPE, text=True, env=env)
+        if p.returncode != 0:
+            if 'LostAnchor' in p.stderr:
+                raise LostAnchor('template generator %s: %s' % (os.path.basename(gen), p.stderr.strip().split('\n')[-1]))
+            raise ToolLimit('template generator %s failed: %s' % (os.path.basename(gen), p.stderr[-800:]))
+        os.makedirs(BUILD, exist_ok=True)
+        gp = os.path.join(BUILD, unit.name + '.vtpl')
+        open(gp, 'w').write(p.stdout)
+        t = load_template(gp)
+    else:
+        t = load_template(unit.tpl)
     lines = t.split('\n')
     out = []
     pending_props = None
@@ -407,12 +419,21 @@ def expand(unit):
         if s.startswith('//@item'):
             spec = [p.strip() for p in s[len('//@item'):].split('::')]
             derive = None
+            exec_const = None
             if spec and spec[-1].startswith('derive('):
                 derive = spec.pop()[len('derive('):-1]
+            if spec and spec[-1].startswith('exec_const('):
+                exec_const = spec.pop()[len('exec_const('):-1]
             file, path = spec[0], spec[1:]
             it = source(file).find(path)
             log = []
             txt = transform_item(it.text(), derive, log)
+            if exec_const is not None:
+                mm = re.match(r'\s*(pub\s+)?const\s+(\w+)\s*:\s*([^=]+?)\s*=\s*(.*);\s*$', txt, re.S)
+                if not mm:
+                    raise LostAnchor('exec_const: %s is not a simple const' % ' :: '.join(path))
+                txt = '%sexec const %s: %s ensures %s == %s { %s }\n' % (mm.group(1) or '', mm.group(2), mm.group(3), mm.group(2), exec_const, mm.group(4))
+                log.append(('T7', 'const given an `ensures` (value %s proved by Verus from the initialiser)' % exec_const))
             out.append('// --- pasted item %s :: %s  [%s]' % (file, ' :: '.join(path), '; '.join(sorted(set(x[0] for x in log)))))
             out.append(txt.rstrip('\n'))
             unit.items.append({'source': file + ' :: ' + ' :: '.join(path), 'sha256': hashlib.sha256(it.text().encode()).hexdigest(), 'rewrites': ['%s %s' % x for x in log]})
